@@ -606,22 +606,23 @@ def _relink(mod, rel):
 
 # ---------------------------------------------------------------------------------------------------------------------
 
-def _const_expr(e, depth=0):
-    """constant expressions that may be propagated: literals, tuples of them, arithmetic on them, dotted names"""
+def _const_expr(e, depth=0, stable=()):
+    """constant expressions that may be propagated: literals, tuples of them, arithmetic on them, dotted names;
+    `stable`: module-level names bound exactly once by a class / def / import (they denote the same object everywhere)"""
     if depth > 6:
         return False
     if isinstance(e, ast.Constant):
         return True
     if isinstance(e, (ast.Tuple, ast.List, ast.Set)) and not isinstance(e, ast.Set):
-        return isinstance(e, ast.Tuple) and all(_const_expr(x, depth + 1) for x in e.elts)
+        return isinstance(e, ast.Tuple) and all(_const_expr(x, depth + 1, stable) for x in e.elts)
     if isinstance(e, ast.BinOp):
-        return _const_expr(e.left, depth + 1) and _const_expr(e.right, depth + 1)
+        return _const_expr(e.left, depth + 1, stable) and _const_expr(e.right, depth + 1, stable)
     if isinstance(e, ast.UnaryOp):
-        return _const_expr(e.operand, depth + 1)
+        return _const_expr(e.operand, depth + 1, stable)
     if isinstance(e, ast.Attribute):
         return isinstance(e.value, ast.Name) and e.value.id != "self" and e.attr.isupper()
     if isinstance(e, ast.Name):
-        return e.id.isupper() or e.id in ("True", "False", "None")
+        return e.id.isupper() or e.id in ("True", "False", "None") or e.id in stable
     if isinstance(e, ast.Call) and isinstance(e.func, ast.Name) and e.func.id == "frozenset" and len(e.args) == 1:
         return False
     return False
@@ -647,11 +648,27 @@ def inline_new_constants(asts, ref):
         for st in mod.body:
             if isinstance(st, ast.Assign) and len(st.targets) == 1 and isinstance(st.targets[0], ast.Name):
                 stores.setdefault(st.targets[0].id, []).append(st)
+        bound = {}
+        for n in ast.walk(mod):
+            if isinstance(n, ast.Name) and isinstance(n.ctx, (ast.Store, ast.Del)):
+                bound[n.id] = bound.get(n.id, 0) + 1
+            elif isinstance(n, (ast.ClassDef, ast.FunctionDef, ast.AsyncFunctionDef)):
+                bound[n.name] = bound.get(n.name, 0) + 1
+            elif isinstance(n, ast.arg):
+                bound[n.arg] = bound.get(n.arg, 0) + 1
+            elif isinstance(n, (ast.Import, ast.ImportFrom)):
+                for a in n.names:
+                    nm = (a.asname or a.name).split(".")[0]
+                    bound[nm] = bound.get(nm, 0) + 1
+        stable = {st.name for st in mod.body if isinstance(st, ast.ClassDef) and bound.get(st.name) == 1}
+        for st in mod.body:
+            if isinstance(st, ast.ImportFrom):
+                stable |= {(a.asname or a.name) for a in st.names if bound.get(a.asname or a.name) == 1}
         for name, sts in stores.items():
             if len(sts) != 1 or name in ref_mod_names:
                 continue
             v = sts[0].value
-            if not (_const_expr(v) or _is_re_compile(v)):
+            if not (_const_expr(v, 0, stable) or _is_re_compile(v)):
                 continue
             # never rebound anywhere else in the module
             rebound = False
@@ -743,7 +760,9 @@ def _unrollable(st):
         return False
     for b in st.body:
         for n in ast.walk(b):
-            if isinstance(n, (ast.Break, ast.Continue, ast.FunctionDef, ast.AsyncFunctionDef, ast.Lambda, ast.ClassDef)):
+            if isinstance(n, (ast.FunctionDef, ast.AsyncFunctionDef, ast.Lambda, ast.ClassDef)):
+                return False
+            if isinstance(n, (ast.Break, ast.Continue)) and _loop_of(n, st):
                 return False
             if isinstance(n, ast.Name) and n.id in names and isinstance(n.ctx, (ast.Store, ast.Del)):
                 return False
@@ -847,6 +866,24 @@ def _load(e):
         if hasattr(n, "ctx"):
             n.ctx = ast.Load()
     return e
+
+
+def _is_deque_attr(fn, expr):
+    """expr is self.<a> and some method of the class binds self.<a> to deque(..)"""
+    if not (isinstance(expr, ast.Attribute) and isinstance(expr.value, ast.Name) and expr.value.id == "self"):
+        return False
+    cls = getattr(fn, "_parent", None)
+    while cls is not None and not isinstance(cls, ast.ClassDef):
+        cls = getattr(cls, "_parent", None)
+    if cls is None:
+        return False
+    for a in ast.walk(cls):
+        if isinstance(a, ast.Assign) and any(isinstance(t, ast.Attribute) and t.attr == expr.attr and isinstance(t.value, ast.Name)
+                                             and t.value.id == "self" for t in a.targets) \
+                and isinstance(a.value, ast.Call) and isinstance(a.value.func, (ast.Name, ast.Attribute)) \
+                and (a.value.func.id if isinstance(a.value.func, ast.Name) else a.value.func.attr) == "deque":
+            return True
+    return False
 
 
 def _ancestors_upto(node, top):
@@ -985,11 +1022,23 @@ def _norm_block(lst, fn):
                     if not _touches(between, st.value.value):
                         call = ast.Call(func=ast.Attribute(value=copy.deepcopy(st.value.value), attr="pop", ctx=ast.Load()),
                                         args=[copy.deepcopy(st.value.slice)], keywords=[])
+                        if _is_deque_attr(fn, st.value.value) and isinstance(st.value.slice, ast.Constant) and st.value.slice.value == 0:
+                            call = ast.Call(func=ast.Attribute(value=copy.deepcopy(st.value.value), attr="popleft", ctx=ast.Load()),
+                                            args=[], keywords=[])
                         st.value = call
                         ast.fix_missing_locations(st)
                         del lst[j]
                         n += 1
                     break
+        # del self.q[0]   ->   self.q.popleft()     (q a deque attribute of the class)
+        if isinstance(st, ast.Delete) and len(st.targets) == 1 and isinstance(st.targets[0], ast.Subscript) \
+                and isinstance(st.targets[0].slice, ast.Constant) and st.targets[0].slice.value == 0 \
+                and _is_deque_attr(fn, st.targets[0].value):
+            new = ast.Expr(value=ast.Call(func=ast.Attribute(value=_load(st.targets[0].value), attr="popleft", ctx=ast.Load()), args=[], keywords=[]))
+            ast.copy_location(new, st)
+            ast.fix_missing_locations(new)
+            lst[i] = new
+            n += 1
         # if k in d: del d[k]   ->   d.pop(k, None)
         if isinstance(st, ast.If) and not st.orelse and len(st.body) == 1 and isinstance(st.body[0], ast.Delete) \
                 and isinstance(st.test, ast.Compare) and len(st.test.ops) == 1 and isinstance(st.test.ops[0], ast.In):
